@@ -29,7 +29,12 @@ static string normalize_numbers(const string& s) {
   return r;
 }
 
-static void judge_proc(const char* op, const string& name, const string& path, const string& before, const string& after, const Outcome& o, size_t reads_seen) {
+// load_file is only bound by "load_file(save_file(d)) = d" (a regular file whose size the kernel reports truthfully); the
+// statement's no-silent-truncation clause lists read_all/fgets/readx/preadx/freadx. A load_file that returns exactly the
+// first st_size bytes of a source whose metadata under-reports (procfs: 0) is therefore counted, not judged. It is still
+// judged for wrong bytes, padding and any other length.
+static void judge_proc(const char* op, const string& name, const string& path, const string& before, const string& after, const Outcome& o, size_t reads_seen,
+    bool volatile_file, bool size_bound, size_t reported_size) {
   C->evaluations++;
   string kase = fmt("%s on %s (a procfs file: st_size=0, the harness' own read()-until-0 loop on a second descriptor sees %zu bytes in chunks of about one page); subject process is stopped",
       op, path.c_str(), before.size());
@@ -37,7 +42,15 @@ static void judge_proc(const char* op, const string& name, const string& path, c
     C->cls(fmt("procfs:%s:%s:throw", op, name.c_str()));
     return;
   }
-  bool stable = before == after;
+  // only maps and environ of a stopped process are byte-stable; status/smaps/cpuinfo hold counters shared with the rest of the
+  // machine (SigQ, Rss, cpu MHz) that move between two reads even when before == after: numbers are never compared there
+  bool stable = !volatile_file && before == after;
+  if (size_bound && o.got.size() == reported_size && reported_size < before.size() &&
+      (stable ? o.got == before.substr(0, reported_size) : true)) {
+    C->cls(fmt("procfs:%s:%s:first-st_size-bytes(not-demanded)", op, name.c_str()));
+    C->count(fmt("procfs:%s:returned-st_size-prefix", op));
+    return;
+  }
   bool ok = stable ? (o.got == before) : (normalize_numbers(o.got) == normalize_numbers(before) || normalize_numbers(o.got) == normalize_numbers(after));
   if (ok) {
     C->cls(fmt("procfs:%s:%s:%s:ok", op, name.c_str(), before.size() > 3 * 4096 ? ">3pages" : before.size() > 4096 ? ">1page" : "<=1page"));
@@ -121,7 +134,7 @@ static void part_procfs() {
           });
         }
         string after = read_file_raw(path);
-        judge_proc(OPN[op], nf.first, path, before, after, o, reads);
+        judge_proc(OPN[op], nf.first, path, before, after, o, reads, nf.first != "maps" && nf.first != "environ", op == 2, (size_t)sb.st_size);
         g.check("procfs", path);
       }
     }
@@ -170,6 +183,14 @@ static void part_lyingstat(vf::Rng& r) {
             if (fd >= 0) __real_close(fd);
           }
           const char* rel = (size_t)lie == n ? "true-size" : (size_t)lie < n ? "under-reported" : "over-reported";
+          // a file that grew after the size query: the content as of the query (exactly the first `lie` bytes) is a legitimate answer
+          // for the size-bound load_file (see judge_proc); anything else (other lengths, padding, wrong bytes) is judged as usual
+          if (op == 2 && (size_t)lie < n && !o.threw && o.got == d.substr(0, (size_t)lie)) {
+            C->evaluations++;
+            C->cls(fmt("load_file:lying-st_size:under-reported:%s:size-query-snapshot(not-demanded)", lied ? "size-queried" : "size-not-queried"));
+            g.check("lying-st_size", path);
+            continue;
+          }
           judge(OPN[op], "lying-st_size", fmt("%s:%s", rel, lied ? "size-queried" : "size-not-queried"), d, o, [&] {
             return fmt("%s on a regular file that holds %zu bytes while fstat/stat report st_size=%ld (%s; %zu falsified answers), every read() limited by plan %s (%zu read calls)", OPN[op], n,
                 lie, rel, lied, io::plan_str(p, true).c_str(), reads);
